@@ -96,7 +96,15 @@ func parseBatch(c *core.Ctx, inputs [][]byte, tree bool) ([]*parseOut, []string)
 // cliParse judges one input through the real CLI.
 func cliParse(c *core.Ctx, in []byte) (acc bool, abn string, res *runner.Result) {
 	// all three input paths take turns (chosen by the input itself, so a replay takes the same path)
-	switch hashBytes(in) % 4 {
+	h := hashBytes(in) % 9
+	if h == 8 && !runner.PtyTypable(in) {
+		h = 0
+	}
+	stdinIn := in
+	if len(in) == 0 {
+		stdinIn = []byte{}
+	}
+	switch h {
 	case 0:
 		res = run(c, in, "text", "parse")
 	case 1:
@@ -104,6 +112,24 @@ func cliParse(c *core.Ctx, in []byte) (acc bool, abn string, res *runner.Result)
 	case 2:
 		// FILE that is not a regular file: a pipe reached through its /dev name (no size, no seeking)
 		res = run(c, in, "text", "parse", "/dev/stdin")
+	case 4:
+		// standard input is a regular file
+		res = c.Crd.Run(runner.Opt{Stdin: stdinIn, StdinKind: "file"}, "text", "parse")
+	case 5:
+		// ... whose first line somebody else has read already: the text starts at the current offset
+		a := []string{"text", "parse"}
+		if hashBytes(in)/16%2 == 0 {
+			a = append(a, "-")
+		}
+		res = c.Crd.Run(runner.Opt{Stdin: stdinIn, StdinKind: "fileoffset"}, a...)
+	case 6:
+		res = c.Crd.Run(runner.Opt{Stdin: stdinIn, StdinKind: "socket"}, "text", "parse")
+	case 7:
+		// the text arrives in pieces (short reads)
+		res = c.Crd.Run(runner.Opt{Stdin: stdinIn, StdinPieces: 3}, "text", "parse")
+	case 8:
+		// typed on a terminal
+		res = c.Crd.Run(runner.Opt{Stdin: stdinIn, StdinKind: "pty"}, "text", "parse")
 	default:
 		res = run(c, nil, "text", "parse", c.Scratch.File("c04.txt", in))
 	}
